@@ -1,8 +1,15 @@
+// Runner for C45: histories of hidden-segment registrations and requests on the
+// real RegistryServer / AuthoritativeServer / Storer over the real sqlite path DB
+// (in memory), with a fake segment verifier whose verdict is generated.
 package main
 
 import (
 	"context"
+	"errors"
 	"fmt"
+	"net"
+	"sort"
+	"strings"
 	"time"
 
 	"github.com/scionproto/scion/pkg/addr"
@@ -11,31 +18,547 @@ import (
 	"github.com/scionproto/scion/pkg/snet"
 	"github.com/scionproto/scion/private/storage/db"
 	"github.com/scionproto/scion/private/storage/path/sqlite"
+	"github.com/scionproto/scion/private/storage/utils"
 	"verifharness/internal/hpseg"
+	"verifharness/internal/vgen"
 )
 
-type ver struct{ ok bool }
+var t0 = time.Unix(1_700_000_000, 0)
 
-func (v ver) Verify(context.Context, []*seg.Meta, interface{ Network() string; String() string }) error { return nil }
+var universe = []addr.IA{
+	addr.MustParseIA("1-ff00:0:110"), addr.MustParseIA("1-ff00:0:111"),
+	addr.MustParseIA("1-ff00:0:112"), addr.MustParseIA("1-ff00:0:113"),
+	addr.MustParseIA("2-ff00:0:210"), addr.MustParseIA("2-ff00:0:211"),
+}
+
+// iaT prints an ISD-AS as the pair (ISD, low 16 bits of the AS number): an
+// injective renaming on the universe (AS 0 stays 0) that keeps the Gallina
+// literals short; the model only compares ASes and tests the AS for zero.
+func iaT(ia addr.IA) string {
+	return vgen.Pair(vgen.N(uint64(ia.ISD())), vgen.N(uint64(ia.AS())&0xffff))
+}
+func iaL(l []addr.IA) string { return vgen.ListOf(l, iaT) }
+
+type shape struct {
+	hops []hpseg.Hop
+	end  addr.IA
+	key  string
+}
+
+type fakeVerifier struct{ ok bool }
+
+func (v fakeVerifier) Verify(context.Context, []*seg.Meta, net.Addr) error {
+	if v.ok {
+		return nil
+	}
+	return errors.New("fake verification failure")
+}
+
+type grp struct {
+	id                          hiddenpath.GroupID
+	owner                       addr.IA
+	writers, readers, registries []addr.IA
+}
+
+type segRef struct {
+	shape, ver int
+	typ        seg.Type
+}
+
+type opT struct {
+	isReg bool
+	// registration
+	peer    addr.IA
+	gid     hiddenpath.GroupID
+	segs    []segRef
+	verdict bool
+	// request
+	gids []hiddenpath.GroupID
+	dst  addr.IA
+}
+
+type obsT struct {
+	isReg bool
+	ok    bool
+	res   [][2]int // (shape, version), sorted
+}
+
+func subset(r *vgen.Rand, lo, hi int) []addr.IA {
+	n := r.Range(lo, hi)
+	perm := append([]addr.IA(nil), universe...)
+	vgen.Shuffle(r, perm)
+	out := append([]addr.IA(nil), perm[:n]...)
+	sort.Slice(out, func(i, j int) bool { return out[i] < out[j] })
+	return out
+}
+
+func has(l []addr.IA, x addr.IA) bool {
+	for _, y := range l {
+		if x == y {
+			return true
+		}
+	}
+	return false
+}
+
+func toSet(l []addr.IA) map[addr.IA]struct{} {
+	m := map[addr.IA]struct{}{}
+	for _, x := range l {
+		m[x] = struct{}{}
+	}
+	return m
+}
+
+type history struct {
+	local   addr.IA
+	groups  []grp
+	shapes  []shape
+	ops     []opT
+	mutated bool
+}
+
+func genShapes(r *vgen.Rand) []shape {
+	n := r.Range(3, 6)
+	var out []shape
+	seen := map[string]bool{}
+	for len(out) < n {
+		nh := r.Range(2, 3)
+		hops := make([]hpseg.Hop, nh)
+		for i := range hops {
+			hops[i].IA = vgen.Pick(r, universe...)
+			hops[i].Exp = 63
+			if i > 0 {
+				hops[i].In = uint16(r.Range(1, 6))
+			}
+			if i < nh-1 {
+				hops[i].Eg = uint16(r.Range(1, 6))
+			}
+		}
+		ps, err := hpseg.Build(hops, t0, t0, 1)
+		if err != nil {
+			panic(err)
+		}
+		k := hpseg.Key(ps)
+		if seen[k] {
+			continue
+		}
+		seen[k] = true
+		out = append(out, shape{hops: hops, end: hops[nh-1].IA, key: k})
+	}
+	return out
+}
+
+func genHistory(r *vgen.Rand, mutated bool) *history {
+	h := &history{mutated: mutated, local: vgen.Pick(r, universe...)}
+	flaw := func() bool {
+		if mutated {
+			return r.Chance(1, 4)
+		}
+		return r.Chance(1, 14)
+	}
+	ng := r.Range(2, 4)
+	for i := 0; i < ng; i++ {
+		owner := vgen.Pick(r, universe...)
+		g := grp{id: hiddenpath.GroupID{OwnerAS: owner.AS(), Suffix: uint16(i + 1)}, owner: owner,
+			writers: subset(r, 1, 3), readers: subset(r, 0, 2), registries: subset(r, 1, 2)}
+		if !has(g.registries, h.local) && !r.Chance(1, 6) {
+			g.registries = append(g.registries, h.local)
+		}
+		h.groups = append(h.groups, g)
+	}
+	h.shapes = genShapes(r)
+	unknown := hiddenpath.GroupID{OwnerAS: 0xff00_0000_0999, Suffix: 0x63}
+	pickGroup := func() (hiddenpath.GroupID, *grp) {
+		if flaw() {
+			if r.Bool() {
+				return unknown, nil
+			}
+			return hiddenpath.GroupID{}, nil
+		}
+		g := &h.groups[r.Intn(len(h.groups))]
+		return g.id, g
+	}
+	increasing := r.Chance(3, 5) // versions grow along the history (else random: re-registrations of old versions)
+	clock := 1
+	nops := r.Range(8, 18)
+	for i := 0; i < nops; i++ {
+		if r.Chance(11, 20) {
+			o := opT{isReg: true, verdict: !flaw()}
+			var g *grp
+			o.gid, g = pickGroup()
+			if g != nil && !flaw() {
+				o.peer = vgen.Pick(r, g.writers...)
+			} else {
+				o.peer = vgen.Pick(r, universe...)
+			}
+			ns := r.Range(1, 3)
+			if r.Chance(1, 20) {
+				ns = 0
+			}
+			for j := 0; j < ns; j++ {
+				s := segRef{shape: r.Intn(len(h.shapes)), ver: r.Range(1, 4), typ: seg.TypeDown}
+				if increasing {
+					s.ver = clock
+					if r.Chance(2, 3) {
+						clock++
+					}
+				}
+				if flaw() && r.Bool() {
+					s.typ = vgen.Pick(r, seg.TypeUp, seg.TypeCore, seg.Type(0))
+				}
+				o.segs = append(o.segs, s)
+			}
+			h.ops = append(h.ops, o)
+			continue
+		}
+		o := opT{}
+		var first *grp
+		n := r.Range(1, 3)
+		if flaw() && r.Chance(1, 3) {
+			n = 0
+		}
+		for j := 0; j < n; j++ {
+			id, g := pickGroup()
+			if first == nil {
+				first = g
+			}
+			o.gids = append(o.gids, id)
+		}
+		if n > 0 && r.Chance(1, 8) {
+			o.gids = append(o.gids, o.gids[0])
+		}
+		switch {
+		case r.Chance(3, 4):
+			o.dst = h.shapes[r.Intn(len(h.shapes))].end
+		case r.Chance(1, 2):
+			o.dst = addr.MustIAFrom(addr.ISD(r.Range(0, 2)), 0)
+		case r.Chance(1, 3):
+			o.dst = addr.MustIAFrom(0, vgen.Pick(r, universe...).AS())
+		default:
+			o.dst = vgen.Pick(r, universe...)
+		}
+		if first != nil && !flaw() {
+			members := append([]addr.IA{first.owner}, first.writers...)
+			members = append(members, first.readers...)
+			members = append(members, first.registries...)
+			o.peer = vgen.Pick(r, members...)
+		} else {
+			o.peer = vgen.Pick(r, universe...)
+		}
+		h.ops = append(h.ops, o)
+	}
+	return h
+}
+
+// execute runs the history on the real servers.
+func execute(h *history, name string) ([]obsT, string) {
+	backend, err := sqlite.New(name, &db.SqliteConfig{InMemory: true})
+	if err != nil {
+		return nil, "sqlite.New: " + err.Error()
+	}
+	defer backend.Close()
+	store := &hiddenpath.Storer{DB: backend}
+	groups := map[hiddenpath.GroupID]*hiddenpath.Group{}
+	for _, g := range h.groups {
+		groups[g.id] = &hiddenpath.Group{ID: g.id, Owner: g.owner, Writers: toSet(g.writers),
+			Readers: toSet(g.readers), Registries: toSet(g.registries)}
+	}
+	keyToShape := map[string]int{}
+	for i, s := range h.shapes {
+		keyToShape[s.key] = i
+	}
+	ctx := context.Background()
+	auth := hiddenpath.AuthoritativeServer{Groups: groups, DB: store, LocalIA: h.local}
+	var out []obsT
+	for _, o := range h.ops {
+		if o.isReg {
+			var metas []*seg.Meta
+			for _, s := range o.segs {
+				ps, err := hpseg.Build(h.shapes[s.shape].hops, t0,
+					t0.Add(time.Duration(s.ver)*time.Second), uint16(s.ver))
+				if err != nil {
+					return nil, "build: " + err.Error()
+				}
+				metas = append(metas, &seg.Meta{Segment: ps, Type: s.typ})
+			}
+			reg := hiddenpath.RegistryServer{Groups: groups, DB: store,
+				Verifier: fakeVerifier{ok: o.verdict}, LocalIA: h.local}
+			err := reg.Register(ctx, hiddenpath.Registration{Segments: metas, GroupID: o.gid,
+				Peer: &snet.SVCAddr{IA: o.peer, SVC: addr.SvcCS}})
+			out = append(out, obsT{isReg: true, ok: err == nil})
+			continue
+		}
+		res, err := auth.Segments(ctx, hiddenpath.SegmentRequest{GroupIDs: o.gids, DstIA: o.dst,
+			Peer: o.peer})
+		ob := obsT{ok: err == nil}
+		if err == nil {
+			for _, m := range res {
+				idx, ok := keyToShape[hpseg.Key(m.Segment)]
+				if !ok {
+					return nil, "returned segment was never generated"
+				}
+				if m.Type != seg.TypeDown {
+					return nil, "returned segment is not a down segment"
+				}
+				nanos, err := utils.ExtractLastHopVersion(m.Segment)
+				if err != nil {
+					return nil, "version: " + err.Error()
+				}
+				ob.res = append(ob.res, [2]int{idx, int((nanos - t0.UnixNano()) / 1e9)})
+			}
+			sort.Slice(ob.res, func(i, j int) bool {
+				if ob.res[i][0] != ob.res[j][0] {
+					return ob.res[i][0] < ob.res[j][0]
+				}
+				return ob.res[i][1] < ob.res[j][1]
+			})
+		}
+		out = append(out, ob)
+	}
+	return out, ""
+}
+
+// simulate evaluates the history on a Go transcription of the abstract store
+// (strict = the path DB ignores a not-newer segment completely; !strict = it
+// still records the group) and returns the answers of the requests the property
+// lets the server answer, plus the number of admitted registrations. Only used
+// to classify the input (tagging); the model recomputes the class in Coq and
+// the two must agree (part of `agree`).
+func simulate(h *history, strict bool) (answers []string, admitted int) {
+	type ent struct {
+		shape, ver int
+		groups     map[uint64]bool
+	}
+	var st []*ent
+	find := func(shape int) *ent {
+		for _, e := range st {
+			if e.shape == shape {
+				return e
+			}
+		}
+		return nil
+	}
+	group := func(id hiddenpath.GroupID) *grp {
+		for i := range h.groups {
+			if h.groups[i].id == id {
+				return &h.groups[i]
+			}
+		}
+		return nil
+	}
+	for _, o := range h.ops {
+		if o.isReg {
+			g := group(o.gid)
+			if g == nil || !has(g.writers, o.peer) || !has(g.registries, h.local) || !o.verdict {
+				continue
+			}
+			down := true
+			for _, s := range o.segs {
+				down = down && s.typ == seg.TypeDown
+			}
+			if !down {
+				continue
+			}
+			admitted++
+			gid := o.gid.ToUint64()
+			for _, s := range o.segs {
+				e := find(s.shape)
+				switch {
+				case e == nil:
+					st = append(st, &ent{shape: s.shape, ver: s.ver, groups: map[uint64]bool{gid: true}})
+				case s.ver <= e.ver:
+					if !strict {
+						e.groups[gid] = true
+					}
+				default:
+					e.ver = s.ver
+					e.groups[gid] = true
+				}
+			}
+			continue
+		}
+		ok := len(o.gids) > 0
+		for _, id := range o.gids {
+			g := group(id)
+			ok = ok && g != nil && (g.owner == o.peer || has(g.writers, o.peer) ||
+				has(g.readers, o.peer) || has(g.registries, o.peer)) && has(g.registries, h.local)
+		}
+		if !ok {
+			answers = append(answers, "-")
+			continue
+		}
+		var res []string
+		for _, e := range st {
+			end := h.shapes[e.shape].end
+			match := o.dst == end
+			if o.dst.AS() == 0 {
+				match = o.dst.ISD() == end.ISD()
+			}
+			in := false
+			for _, id := range o.gids {
+				in = in || e.groups[id.ToUint64()]
+			}
+			if match && in {
+				res = append(res, fmt.Sprint(e.shape, "@", e.ver))
+			}
+		}
+		answers = append(answers, strings.Join(res, ","))
+	}
+	return
+}
+
+// classify tells, from the input alone, whether the history is in the known
+// defect class: an admitted registration of a segment already stored in an
+// equal or newer version under other groups only is ignored by the path DB, and
+// this shows in some answer of the history.
+func classify(h *history) (known bool, admitted int) {
+	a1, admitted := simulate(h, true)
+	a2, _ := simulate(h, false)
+	return strings.Join(a1, ";") != strings.Join(a2, ";"), admitted
+}
+
+// gidT prints a group id injectively renamed to a small number (the model only
+// compares group ids): suffix for configured groups (1..4), 99 for the unknown
+// group, 0 for the zero id.
+func gidT(id hiddenpath.GroupID) string { return vgen.N(uint64(id.Suffix)) }
+
+func caseTerm(h *history, obs []obsT, known bool) string {
+	ends := make([]string, len(h.shapes))
+	for i, s := range h.shapes {
+		ends[i] = vgen.Pair(vgen.N(uint64(i)), iaT(s.end))
+	}
+	gs := make([]string, len(h.groups))
+	for i, g := range h.groups {
+		gs[i] = vgen.Pair(gidT(g.id), vgen.App("mkgroup", iaT(g.owner), iaL(g.writers),
+			iaL(g.readers), iaL(g.registries)))
+	}
+	cfg := vgen.App("mkcfg", vgen.List(gs), iaT(h.local))
+	ops := make([]string, len(h.ops))
+	for i, o := range h.ops {
+		if o.isReg {
+			segs := vgen.ListOf(o.segs, func(s segRef) string {
+				return vgen.App("mkseg", vgen.N(uint64(s.shape)),
+					fmt.Sprintf("%d%%Z", s.ver), vgen.N(uint64(s.typ)))
+			})
+			ops[i] = vgen.App("OReg", vgen.App("mkreg", iaT(o.peer), gidT(o.gid),
+				segs, vgen.B(o.verdict)))
+		} else {
+			ops[i] = vgen.App("OReq", vgen.App("mkreq",
+				vgen.ListOf(o.gids, gidT), iaT(o.dst), iaT(o.peer)))
+		}
+	}
+	ob := make([]string, len(obs))
+	for i, o := range obs {
+		if o.isReg {
+			c := uint64(1)
+			if o.ok {
+				c = 0
+			}
+			ob[i] = vgen.App("ObsReg", vgen.N(c))
+		} else {
+			ob[i] = vgen.App("ObsReq", vgen.B(o.ok), vgen.ListOf(o.res, func(p [2]int) string {
+				return vgen.Pair(vgen.N(uint64(p[0])), fmt.Sprintf("%d%%Z", p[1]))
+			}))
+		}
+	}
+	return vgen.App("CHist", vgen.List(ends), cfg, vgen.List(ops), vgen.List(ob), vgen.B(known))
+}
+
+func describe(h *history, obs []obsT) any {
+	var ops []any
+	for i, o := range h.ops {
+		if o.isReg {
+			ops = append(ops, map[string]any{"op": "register", "peer": o.peer.String(),
+				"group": o.gid.String(), "segs": fmt.Sprint(o.segs), "verifies": o.verdict,
+				"impl_ok": obs[i].ok})
+		} else {
+			var ids []string
+			for _, g := range o.gids {
+				ids = append(ids, g.String())
+			}
+			ops = append(ops, map[string]any{"op": "segments", "peer": o.peer.String(),
+				"groups": strings.Join(ids, ","), "dst": o.dst.String(), "impl_ok": obs[i].ok,
+				"impl_result(shape,version)": fmt.Sprint(obs[i].res)})
+		}
+	}
+	var gs []any
+	for _, g := range h.groups {
+		gs = append(gs, map[string]any{"id": g.id.String(), "owner": g.owner.String(),
+			"writers": fmt.Sprint(g.writers), "readers": fmt.Sprint(g.readers),
+			"registries": fmt.Sprint(g.registries)})
+	}
+	var sh []string
+	for i, s := range h.shapes {
+		sh = append(sh, fmt.Sprintf("%d:ends %s", i, s.end))
+	}
+	return map[string]any{"local": h.local.String(), "groups": gs, "shapes": sh, "ops": ops}
+}
 
 func main() {
-	b, err := sqlite.New("probe", &db.SqliteConfig{InMemory: true})
-	if err != nil {
-		panic(err)
+	run := vgen.Flags("C45")
+	run.Imports = []string{"Model.HiddenPath"}
+	run.CheckFn = "HiddenPath.check"
+	run.DiagFn = "HiddenPath.diag"
+	run.CaseType = "HiddenPath.case"
+	run.ShardSize = 150
+	run.Prelude = "Import HiddenPath."
+	run.Rule = "histories of 8-18 registrations/requests against real RegistryServer + AuthoritativeServer + " +
+		"Storer over an in-memory sqlite path DB; 2-4 random groups over 6 ASes in 2 ISDs, 3-6 segment shapes " +
+		"(real signed-format segments) in versions 1..; mostly admissible ops, each ingredient flawed with " +
+		"p=1/14 (every 4th history: p=1/4): unknown/zero group, non-writer, non-member, local AS not a registry, " +
+		"non-down segment, failing verification, no/duplicate group ids, wildcard/zero-ISD destinations, empty " +
+		"registrations, stale versions; non-trivial = at least one admitted registration and one answered request " +
+		"returning segments"
+	rng := vgen.NewRand(run.Seed)
+	n := run.Count(1000, 20000)
+	for i := 0; i < n; i++ {
+		h := genHistory(rng.Fork(uint64(i)), i%4 == 3)
+		if !run.Want() {
+			run.Skip()
+			continue
+		}
+		var obs []obsT
+		var fail string
+		panicked, msg := vgen.Recover(func() {
+			obs, fail = execute(h, fmt.Sprintf("c45-%d-%d", run.Seed, i))
+		})
+		known, admitted := classify(h)
+		var tags []string
+		if known {
+			tags = append(tags, "regroup-not-newer")
+			run.Tally("class:regroup-not-newer")
+		}
+		if panicked || fail != "" {
+			// keep id numbering: register a placeholder case that cannot agree
+			id := run.Add("history", caseTerm(h, nil, known), fmt.Sprint(i), false, describe0(h), tags...)
+			run.Violate(id, "hidden path servers: "+msg+fail, describe0(h), tags...)
+			continue
+		}
+		answered, served := 0, 0
+		for j, o := range obs {
+			switch {
+			case h.ops[j].isReg:
+				run.Tally(fmt.Sprintf("register:ok=%v", o.ok))
+			default:
+				run.Tally(fmt.Sprintf("segments:ok=%v", o.ok))
+				if o.ok {
+					answered++
+					served += len(o.res)
+				}
+			}
+		}
+		if h.mutated {
+			run.Tally("stream:mutated")
+		} else {
+			run.Tally("stream:valid")
+		}
+		run.Add("history", caseTerm(h, obs, known), fmt.Sprint(i, h.local, h.ops), admitted > 0 && served > 0,
+			describe(h, obs), tags...)
 	}
-	st := &hiddenpath.Storer{DB: b}
-	ia := func(s string) addr.IA { return addr.MustParseIA(s) }
-	hops := []hpseg.Hop{{IA: ia("1-ff00:0:110"), Eg: 1, Exp: 63}, {IA: ia("1-ff00:0:111"), In: 2, Exp: 63}}
-	t0 := time.Unix(1700000000, 0)
-	s1, _ := hpseg.Build(hops, t0, t0, 1)
-	gA := hiddenpath.GroupID{OwnerAS: 0xff0000000110, Suffix: 1}
-	gB := hiddenpath.GroupID{OwnerAS: 0xff0000000110, Suffix: 2}
-	ctx := context.Background()
-	fmt.Println(st.Put(ctx, []*seg.Meta{{Segment: s1, Type: seg.TypeDown}}, gA))
-	fmt.Println(st.Put(ctx, []*seg.Meta{{Segment: s1, Type: seg.TypeDown}}, gB))
-	r, err := st.Get(ctx, ia("1-ff00:0:111"), []hiddenpath.GroupID{gA})
-	fmt.Println("A:", len(r), err)
-	r, err = st.Get(ctx, ia("1-ff00:0:111"), []hiddenpath.GroupID{gB})
-	fmt.Println("B:", len(r), err)
-	_ = snet.SVCAddr{}
+	run.Finish()
+}
+
+func describe0(h *history) any {
+	obs := make([]obsT, len(h.ops))
+	return describe(h, obs)
 }
